@@ -32,8 +32,11 @@ ALIASES = ["first", "second", "other", "renamed", "aliasOne", "alias_two", "X", 
            "json", "_lead", "class", "Z9", "resultA", "res_b"]
 VAR_NAMES_PLAIN = ["id", "first", "after", "inputData", "flag", "ids", "filterBy", "n", "limit", "where",
                    "someValue", "snake_var", "Upper", "v1", "x", "withDirective"]
-VAR_NAMES_LOCALS = ["self", "kwargs", "query", "variables", "response", "data", "gql", "UNSET", "Upload",
-                    "_query", "_variables"]
+# names of the generated method's own locals: the generator renames its local when a variable has the same Python
+# name (documented behaviour, supported) ...
+VAR_NAMES_LOCALS_SUPPORTED = ["query", "variables", "response", "data", "Query", "QUERY", "Variables", "Data", "Response"]
+# ... but not these (KF-C04-3)
+VAR_NAMES_LOCALS = ["self", "kwargs", "gql", "UNSET", "Upload", "_query", "_variables", "_response", "_data"]
 OP_NAMES = ["GetAlpha", "listThings", "Op1", "fetch_all", "DoIt", "getHTTPStatus", "A", "myQuery2", "Search",
             "LoadX", "bigOne", "Qq", "R2D2", "runMe", "Test", "getUser", "viewerInfo"]
 FRAG_NAMES = ["FragA", "alphaFields", "Common", "baseBits", "DetailsF", "fragX", "Shared", "NodeParts",
@@ -104,6 +107,12 @@ class OpGen:
             if canon(cand) not in self.var_keys and d.enabled("names.var_is_method_local"):
                 self.var_keys.add(canon(cand))
                 names = [cand]
+        if self.local_var_names and d.bool(0.3):
+            cand = d.choice(VAR_NAMES_LOCALS_SUPPORTED)
+            if canon(cand) not in self.var_keys:
+                self.var_keys.add(canon(cand))
+                names = [cand]
+                d.tag("names.var_is_renamed_local")
         if not names:
             return None
         name = names[0]
